@@ -484,6 +484,17 @@ func (x *Exec) loadView(s *State, p *Ptr) Value {
 
 func (x *Exec) viewRead(s *State, under *Ptr, word *smt.Term, vt types.Type) Value {
 	B := x.B
+	// NaN payloads are identified (one NaN per format, as in SMT-LIB): a slot read as a float
+	// holds the canonical bit pattern of its value
+	canon := func(bits *smt.Term, fs *smt.Sort) *smt.Term {
+		f := B.FPFromBits(bits, fs)
+		x.note("floating point (assumed): NaN payloads are identified; a slot holds the canonical bit pattern of the float stored in it")
+		B.FPToBits(B.Var("fp!reg", fs)) // makes sure the uninterpreted fp2bits exists
+		raw := B.UF(fmt.Sprintf("fp2bits_%d", fs.M), smt.BV(fs.E+fs.M), f)
+		x.assumeGlobal(B.Eq(raw, bits))
+		return f
+	}
+	_ = canon
 	b, ok := vt.Underlying().(*types.Basic)
 	if !ok {
 		unsupported("unsafe view as %s", vt)
@@ -500,11 +511,11 @@ func (x *Exec) viewRead(s *State, under *Ptr, word *smt.Term, vt types.Type) Val
 	case types.Int, types.Int64, types.Uint, types.Uint64, types.Uintptr:
 		return word
 	case types.Float32:
-		return B.FPFromBits(B.Extract(31, 0, word), smt.FP32)
+		return canon(B.Extract(31, 0, word), smt.FP32)
 	case types.Float64:
-		return B.FPFromBits(word, smt.FP64)
+		return canon(word, smt.FP64)
 	case types.Complex64:
-		return &Struct{[]Value{B.FPFromBits(B.Extract(31, 0, word), smt.FP32), B.FPFromBits(B.Extract(63, 32, word), smt.FP32)}}
+		return &Struct{[]Value{canon(B.Extract(31, 0, word), smt.FP32), canon(B.Extract(63, 32, word), smt.FP32)}}
 	case types.Complex128:
 		next := *under
 		next.Idx = B.BVBin("bvadd", under.Idx, B.BVC(1, 64))
@@ -512,7 +523,7 @@ func (x *Exec) viewRead(s *State, under *Ptr, word *smt.Term, vt types.Type) Val
 			next.Rel = B.BVBin("bvadd", under.Rel, B.BVC(1, 64))
 		}
 		w2 := x.load(s, &next, next.Type).(*smt.Term)
-		return &Struct{[]Value{B.FPFromBits(word, smt.FP64), B.FPFromBits(w2, smt.FP64)}}
+		return &Struct{[]Value{canon(word, smt.FP64), canon(w2, smt.FP64)}}
 	}
 	unsupported("unsafe view as %s", vt)
 	return nil
